@@ -251,35 +251,57 @@ def selected_fields(
     if field.selection_set is None:
         return []
 
-    _path = _path or []
-    fieldnames = []
-
-    collected = collect_fields_untyped(
-        field.selection_set.selections, fragments, variables
-    )
-
     if isinstance(pattern, str):
         pattern = re.compile(fnmatch.translate(pattern))
 
-    for _, fields in collected.items():
+    return _selected_fields(
+        field.selection_set.selections,
+        fragments,
+        variables,
+        maxdepth,
+        pattern,
+        _path or [],
+    )
 
-        child_field = fields[0]
-        child_path = [*_path, child_field.name.value]
+
+def _selected_fields(
+    selections: Sequence[ast.Selection],
+    fragments: Mapping[str, ast.FragmentDefinition],
+    variables: Mapping[str, Any],
+    maxdepth: Optional[int],
+    pattern: Optional[Pattern],
+    path: List[str],
+) -> List[str]:
+    fieldnames = []
+
+    collected = collect_fields_untyped(selections, fragments, variables)
+
+    for _, fields in collected.items():
+        child_path = [*path, fields[0].name.value]
         joined = "/".join(child_path)
 
         if pattern is None or pattern.match(joined):
             fieldnames.append(joined)
 
-        if (not maxdepth) or len(_path) < (maxdepth - 1):
-            fieldnames.extend(
-                selected_fields(
-                    child_field,
-                    fragments=fragments,
-                    variables=variables,
-                    maxdepth=maxdepth,
-                    pattern=pattern,
-                    _path=child_path,
+        if (not maxdepth) or len(path) < (maxdepth - 1):
+            # Fields sharing a response name are merged: all their
+            # sub-selections contribute, not only the first occurence's.
+            merged = [
+                s
+                for child_field in fields
+                if child_field.selection_set is not None
+                for s in child_field.selection_set.selections
+            ]
+            if merged:
+                fieldnames.extend(
+                    _selected_fields(
+                        merged,
+                        fragments,
+                        variables,
+                        maxdepth,
+                        pattern,
+                        child_path,
+                    )
                 )
-            )
 
     return fieldnames
